@@ -446,6 +446,9 @@ def tie_C03(ctx):
         for _ in range(ctx.scale(3, 20)):
             cases.append([f"new 0 {g} seed {rand_bytes(rng, 32).hex()}", f"fill 0 {500 * 256 * wbytes}", f"{native(g)} 0"])
             ctx.dist[f"{g}:500-blocks"] += 1
+    # states that only a very long history reaches (a / b / c at their maximum), injected through the serde image: the
+    # reference's `bb + (++cc)` and `cc + 1` are modulo 2^w there
+    cases += isaac_counter_extreme_cases(ctx, rng)
     ctx.absolute("stream(IsaacRng, Isaac64Rng) vs model", cases)
     core_level(ctx, ["IsaacRng", "Isaac64Rng"])
 
